@@ -5,6 +5,7 @@
 # replace with simplejson
 import simplejson as json
 
+import collections
 import os
 import time
 import logging
@@ -98,24 +99,28 @@ class DefaultHandler(BaseHandler):
         msg_file_name = file_list[-1]
         # the newest file is empty right after a rotation: the last record is in an older file
         for file_name in reversed(file_list):
+            found = False
             try:
                 with open(msg_path + file_name, 'r') as fh:
-                    line = None
-                    for line in fh:
-                        pass
-                    last = line
-                    if line:
+                    tail = collections.deque(fh, maxlen=64)
+                # a crash in the middle of a write leaves a torn line behind: the last
+                # complete record is then an earlier line (or in an older file)
+                for last in reversed(tail):
+                    try:
                         if last.startswith('['):
                             last_seq = eval(last)[1]
+                            found = True
                         elif last.startswith('{'):
                             last_seq = json.loads(last)['seq']
+                            found = True
+                    except Exception as e:
+                        LOG.error('Skip incomplete record in %s: %s', file_name, e)
+                    if found:
                         break
             except OSError:
                 LOG.error('Error when reading bgp message files')
-            except Exception as e:
-                LOG.debug(traceback.format_exc())
-                LOG.error(e)
-                sys.exit()
+            if found:
+                break
 
         return last_seq, msg_file_name
 
